@@ -53,11 +53,16 @@ type Ctx struct {
 // type error is an infrastructure failure (exit 2), never a verdict.
 func Load(repo, tier string) (*Ctx, error) {
 	os.Unsetenv("GOWORK")
+	env := append(os.Environ(), "GOWORK=off")
+	if goos := os.Getenv("SLIPCHECK_GOOS"); goos != "" {
+		// cross type-check the files guarded by build tags for another platform (no cgo needed)
+		env = append(env, "GOOS="+goos, "CGO_ENABLED=0")
+	}
 	cfg := &packages.Config{
 		Mode:  packages.LoadAllSyntax,
 		Dir:   repo,
 		Tests: false,
-		Env:   append(os.Environ(), "GOWORK=off"),
+		Env:   env,
 	}
 	pkgs, err := packages.Load(cfg, "./...")
 	if err != nil {
